@@ -286,3 +286,8 @@ for _e in ENGINES:
 # ---- propcomp / cachetrace units (C03 / C13 / C05) ---------------------------------------------------------------------------------------
 _patch('C03', 'level_note', 'Not decided: field numbering by the compiler vs run-time Field order,', 'Decided for the compiler (propcomp unit, stub-and-log extraction of the real Compiler::assign / send / assign_binary / access / property_get / property_set / atom / apply_atom / apply_trailers): a fixed-slot GetProp / SetProp is emitted only when the receiver is self itself, the field is known to the class being compiled and that class has no explicit superclass; every other access goes by name (D26 found and fixed here: the write of `o.b += v`). Not decided: field numbering by the compiler vs run-time Field order,')
 _patch('C13', 'level_note', 'and A-classid (no class address reuse while cached): true since the caches are GC roots', 'and A-classid (no class address reuse while cached): true since the caches are GC roots and InlineCache::trace reaches the class of every filled entry and every cached method (cachetrace unit)')
+
+# ---- natargs / iterops (C16 / C11 / C06 / C01) ----------------------------------------------------------------------------------------------
+_patch('C16', 'level_note', 'Not decided: the ~150 native bodies themselves (that each assumes no more than its declared signature),',
+       'Native bodies: for 128 of the 131 natives of laythe_lib a GENERATED obligation says that the argument indexings and unwraps the body performs unconditionally are covered by what the gate admits for its own declared signature (natargs unit; D28 print() and D29 isA? found and fixed, D27 — List.collect / Tuple.collect / iter.zip / iter.chain cast Object-kind arguments to enumerators unchecked — is a listed finding). Not decided: unwraps reached only conditionally (dropped from the slice: they may be guarded), results of callbacks (print(A()) with a non-string str()), Sin / Cos / Rand (declared through another macro),')
+_patch('C11', 'level_text', 'so a native body only runs on arguments of the declared kinds.', 'so a native body only runs on arguments of the declared kinds; and the unconditional argument unwraps of 128 native bodies are covered by their own declared signatures (natargs unit, generated).')
